@@ -12,21 +12,33 @@ use sodg::{Hex, Label, Sodg};
 /// Run a history in lock-step with the model; a finding tagged for `prop` fails the case.
 /// Ops the model does not enable are a bug of the family itself.
 pub fn run_history<const N: usize>(acc: &mut Acc, prop: &'static str, what: &str, cap: usize, ops: &[Op]) -> bool {
+    run_history_opt::<N>(acc, prop, what, cap, ops, prop == "C06", false)
+}
+
+/// `any`: every divergence from the model fails the case (the property says "as the model" for
+/// the whole history); `track`: the model keeps the set of returned ids (C05).
+pub fn run_history_opt<const N: usize>(acc: &mut Acc, prop: &'static str, what: &str, cap: usize, ops: &[Op], any: bool, track: bool) -> bool {
     let mut g: Sodg<N> = Sodg::empty(cap);
-    let mut m = Model::new(cap, N, false);
+    let mut m = Model::new(cap, N, track);
     let labels: Vec<u8> = vec![0];
+    let mut done: Vec<Op> = vec![];
     for (i, op) in ops.iter().enumerate() {
         let pos = g.verif_snapshot().next_v;
         if !m.enabled(op, pos) {
+            if any || track {
+                continue; // these families over-generate: a call the model does not allow here is skipped
+            }
             acc.fail(prop, "machinery:family-op-not-enabled", format!("{what}: op {i} {} is outside the limits", op.text()), json!({}));
             return false;
         }
         acc.evaluations += 1;
+        done.push(*op);
         let (_, fs) = step(&labels, &mut g, &mut m, op);
-        if let Some(f) = fs.iter().find(|f| f.tags.contains(&prop) || prop == "C06") {
+        if let Some(f) = fs.iter().find(|f| f.tags.contains(&prop) || any) {
             let mut cfg = HxCfg::new(prop, what, N, cap, &[], &labels, &[]);
             cfg.next_id = false;
-            acc.fail(prop, &format!("family:{}", f.kind), format!("{what}: [{}] at call {} of {}: {}", f.kind, i + 1, ops.len(), f.detail), crate::report::hx_case_json(&cfg, &ops[..=i], "transition", &f.kind, &f.detail, None));
+            cfg.track_returned = track;
+            acc.fail(prop, &format!("family:{}", f.kind), format!("{what}: [{}] at call {} of {}: {}", f.kind, i + 1, ops.len(), f.detail), crate::report::hx_case_json(&cfg, &done, "transition", &f.kind, &f.detail, None));
             return false;
         }
         if !fs.is_empty() {
@@ -158,6 +170,16 @@ pub fn run_c02_family(tier: &str) -> Acc {
     let quick = crate::props::quick(tier);
     let variants: usize = if quick { 4 } else { 8 };
     let total = (1usize << 14) * variants;
+    let mut first = Acc::default();
+    for v in 0..8 {
+        fourteen_groups(&mut first, v);
+    }
+    let mut rest = run_c02_members(total, variants);
+    first.merge(std::mem::take(&mut rest));
+    first
+}
+
+fn run_c02_members(total: usize, variants: usize) -> Acc {
     super::par_cases(total, |k, acc| {
         if k % 512 == 0 {
             crate::inflight::begin_case(|| json!({"engine": "family", "property": "C02", "kind": "crash-or-hang", "tags": ["C02"], "case": k}));
@@ -200,7 +222,7 @@ fn label_menu() -> Vec<Label> {
     vec![
         Label::Alpha(0), Label::Alpha(1), Label::Alpha(10), Label::Alpha(usize::MAX), Label::Alpha(255), Label::Alpha(256),
         Label::Greek('a'), Label::Greek('Z'), Label::Greek('7'), Label::Greek('ρ'), Label::Greek('σ'), Label::Greek('π'), Label::Greek('φ'), Label::Greek('Δ'), Label::Greek('𝜑'), Label::Greek('€'), Label::Greek('1'),
-        s("ab"), s("ba"), s("ρσ"), s("σρ"), s("foo"), s("fo"), s("fooo"), s("𝜑𝜑"), s("𝜑ρ"), s("a1b2c3d4"), s("a1b2c3d5"), s("ρρρρρρρρ"), s("ρρρρρρρ"), s("𝜑𝜑𝜑𝜑𝜑𝜑𝜑𝜑"), s("x-y_z+w"), s("α1"), s("1α"), s("hello"), s("Hello"), s("+bar"), s("bar"), s("ΔΔ"), s("12"),
+        s("ab"), Label::Str(['a', ' ', 'b', ' ', ' ', ' ', ' ', ' ']), s("ba"), s("ρσ"), s("σρ"), s("foo"), s("fo"), s("fooo"), s("𝜑𝜑"), s("𝜑ρ"), s("a1b2c3d4"), s("a1b2c3d5"), s("ρρρρρρρρ"), s("ρρρρρρρ"), s("𝜑𝜑𝜑𝜑𝜑𝜑𝜑𝜑"), s("x-y_z+w"), s("α1"), s("1α"), s("hello"), s("Hello"), s("+bar"), s("bar"), s("ΔΔ"), s("12"),
     ]
 }
 
@@ -209,9 +231,18 @@ fn bytes_of(len: usize, salt: u8) -> Vec<u8> {
 }
 
 /// One cell of the sweep: all histories for one (label, length, N).
-fn sweep_cell<const N: usize>(acc: &mut Acc, l: Label, other: Label, len: usize) {
-    let d = bytes_of(len, 0x31);
-    let d2 = bytes_of((len + 9) % 18, 0x77);
+fn sweep_cell<const N: usize>(acc: &mut Acc, l: Label, other: Label, len: usize, first: Option<u8>) {
+    let mut d = bytes_of(len, 0x31);
+    let mut d2 = bytes_of((len + 9) % 18, 0x77);
+    // contents that look like "nothing": a leading (or only) 00 / FF byte, all-equal bytes
+    if let Some(b) = first {
+        if let Some(x) = d.first_mut() {
+            *x = b;
+        }
+        for x in d2.iter_mut() {
+            *x = b;
+        }
+    }
     let hx = |b: &[u8]| Hex::from_slice(b);
     let mut check = |name: &str, ok: Result<bool, String>| {
         acc.evaluations += 1;
@@ -305,10 +336,12 @@ pub fn run_c03_sweep(_tier: &str) -> Acc {
         let other = labels[(k / lens.len() + 1) % labels.len()];
         let len = lens[k % lens.len()];
         crate::inflight::begin_case(|| json!({"engine": "sweep", "property": "C03", "kind": "crash-or-hang", "tags": ["C03"], "label": crate::gen::labelgen::describe(&l), "data_len": len}));
-        sweep_cell::<1>(acc, l, other, len);
-        sweep_cell::<2>(acc, l, other, len);
-        sweep_cell::<16>(acc, l, other, len);
-        acc.nontrivial += 3;
+        for first in [None, Some(0x00u8), Some(0xFF)] {
+            sweep_cell::<1>(acc, l, other, len, first);
+            sweep_cell::<2>(acc, l, other, len, first);
+            sweep_cell::<16>(acc, l, other, len, first);
+            acc.nontrivial += 3;
+        }
         if k % 97 == 0 {
             acc.sample(json!({"family": "value sweep", "label": crate::gen::labelgen::describe(&l), "data_bytes": len}));
         }
@@ -317,3 +350,172 @@ pub fn run_c03_sweep(_tier: &str) -> Acc {
     acc.bump("sweep_lengths", lens.len() as u64);
     acc
 }
+
+/// k groups alive (k = 1..=14: the last one uses the last usable slot), some data read, then
+/// `swap` (ReloadSwap for C08, CloneSwap for C10), then everything is read: lock-step with the model.
+pub fn groups_then_swap(acc: &mut Acc, prop: &'static str, k: usize, swap: Op, variant: usize) {
+    let mut ops = vec![];
+    for g in 0..k {
+        let (x, y) = (2 * g, 2 * g + 1);
+        ops.extend([Op::Add(x), Op::Add(y), Op::Bind(x, y, 0), Op::Put(y, (g % 2) as u8), Op::Put(x, 0)]);
+    }
+    // an ungrouped vertex with data, and reads that leave taken data behind
+    ops.extend([Op::Add(30), Op::Put(30, 1), Op::Data(30)]);
+    for g in 0..k {
+        if (g + variant) % 3 == 0 {
+            ops.push(Op::Data(2 * g));
+        }
+    }
+    ops.push(swap);
+    if variant % 2 == 1 {
+        ops.push(swap);
+        ops.push(swap);
+    }
+    let order: Vec<usize> = if variant % 2 == 0 { (0..k).collect() } else { (0..k).rev().collect() };
+    for g in order {
+        ops.extend([Op::Data(2 * g + 1), Op::Data(2 * g)]);
+    }
+    ops.push(Op::Data(30));
+    if run_history_opt::<2>(acc, prop, &format!("{k} groups alive, then {}, then everything is read (variant {variant})", swap.text()), 32, &ops, true, false) {
+        acc.nontrivial += 1;
+        acc.bump("swap_with_k_groups_alive_runs", 1);
+        if k == 14 {
+            acc.bump("swap_with_14_groups_alive_runs", 1);
+        }
+    }
+}
+
+pub fn run_swap_family(prop: &'static str, swap: Op) -> Acc {
+    super::par_cases(14 * 4, |i, acc| {
+        groups_then_swap(acc, prop, i / 4 + 1, swap, i % 4);
+        if i % 17 == 0 {
+            acc.sample(json!({"family": "k groups then swap", "k": i / 4 + 1, "variant": i % 4}));
+        }
+    })
+}
+
+/// C02: fill all 14 slots and drain them in both orders (the 14th group must form and die).
+pub fn fourteen_groups(acc: &mut Acc, variant: usize) {
+    let mut ops = vec![];
+    for g in 0..14usize {
+        let (x, y) = (2 * g, 2 * g + 1);
+        ops.extend([Op::Add(x), Op::Add(y)]);
+        if variant & 1 == 1 {
+            ops.push(Op::Put(x, 0));
+        }
+        ops.push(if variant & 2 == 2 { Op::Bind(y, x, 0) } else { Op::Bind(x, y, 0) });
+        if variant & 1 == 0 {
+            ops.push(Op::Put(x, 0));
+        }
+    }
+    let order: Vec<usize> = if variant & 4 == 4 { (0..14).rev().collect() } else { (0..14).collect() };
+    for g in order {
+        ops.extend([Op::Data(2 * g + 1), Op::Data(2 * g)]);
+    }
+    if run_history_opt::<2>(acc, "C02", &format!("14 groups alive at once, variant {variant}"), 30, &ops, false, false) {
+        acc.nontrivial += 1;
+        acc.bump("fourteen_groups_runs", 1);
+    }
+}
+
+/// C05: runs of present vertices right at the allocator position, in stores of several capacities;
+/// every id handed out is judged by the model that keeps the set of returned ids.
+pub fn next_id_runs(acc: &mut Acc, cap: usize, run: usize, variant: usize) {
+    let mut ops = vec![];
+    // ids handed out and (variant 1) not added, then a run of explicitly added vertices right above
+    let handed = variant % 3;
+    for _ in 0..handed {
+        ops.push(if variant & 4 == 4 { Op::AddNext } else { Op::NextId });
+    }
+    for v in handed..(handed + run).min(cap) {
+        ops.push(Op::Add(v));
+    }
+    let free = cap.saturating_sub(handed + run);
+    for i in 0..free.min(6) {
+        ops.push(if (i + variant) % 2 == 0 { Op::NextId } else { Op::AddNext });
+    }
+    if run_history_opt::<2>(acc, "C05", &format!("capacity {cap}: {handed} ids handed out, {run} vertices added right above, then next_id calls (variant {variant})"), cap, &ops, false, true) {
+        acc.nontrivial += 1;
+        acc.bump("next_id_run_histories", 1);
+    }
+}
+
+pub fn run_c05_family(_tier: &str) -> Acc {
+    let caps = [1usize, 2, 9, 10, 12, 17, 33, 64, 300, 1024];
+    let mut cases = vec![];
+    for cap in caps {
+        for run in 0..cap.min(40) {
+            for variant in 0..6 {
+                cases.push((cap, run, variant));
+            }
+        }
+    }
+    let mut acc = super::par_cases(cases.len(), |i, acc| {
+        let (cap, run, variant) = cases[i];
+        next_id_runs(acc, cap, run, variant);
+        if i % 211 == 0 {
+            acc.sample(json!({"family": "next_id runs", "capacity": cap, "run": run, "variant": variant}));
+        }
+    });
+    script_scenarios(&mut acc);
+    acc
+}
+
+/// C05: ids created through script variables (and by merge) count as handed out, whether the
+/// script succeeds or fails later on; after the vertices are collected they must not come again.
+pub fn script_scenarios(acc: &mut Acc) {
+    let scripts: [(&str, bool); 6] = [
+        ("ADD($a); BIND(ROOT, $a, foo); PUT($a, CA-FE);", true),
+        ("ADD($a); BIND(ROOT, $a, foo); PUT($a, CA-FE); PUT($a, xyz);", false),
+        ("ADD($a); ADD($b); BIND(ROOT, $a, foo); BIND($a, $b, bar); PUT($b, 01); FOO(1);", false),
+        ("ADD($a); BIND(ROOT, $a, foo); PUT($a, CA-FE); ADD($c); BIND($a, $c, x); BIND($c,", false),
+        ("ADD($a); BIND(ROOT, $a, foo); PUT($a, 00-11-22-33-44-55-66-77-88-99);", true),
+        ("PUT(ROOT, 01); ADD($a); BIND(ROOT, $a, foo); ADD($b)", true),
+    ];
+    for (si, (text, succeeds)) in scripts.iter().enumerate() {
+        for cap in [8usize, 300] {
+            acc.evaluations += 1;
+            acc.nontrivial += 1;
+            let replay = json!({"engine": "c05-script", "property": "C05", "script": text, "capacity": cap});
+            let r = guarded(|| -> Result<(), String> {
+                let mut g: Sodg<4> = Sodg::empty(cap);
+                let mut returned: Vec<usize> = vec![];
+                let root = g.next_id();
+                returned.push(root);
+                g.add(root);
+                let before = g.keys();
+                let res = sodg::Script::from_str(&text.replace("ROOT", &root.to_string())).deploy_to(&mut g);
+                if res.is_ok() != *succeeds {
+                    return Ok(()); // C14 judges the script itself
+                }
+                // every vertex the script created got its id from next_id()
+                for v in g.keys() {
+                    if !before.contains(&v) {
+                        returned.push(v);
+                    }
+                }
+                // read every datum: collects the group(s)
+                for v in g.keys() {
+                    let _ = g.data(v);
+                }
+                for _ in 0..3 {
+                    if g.keys().len() + returned.len() >= cap {
+                        break;
+                    }
+                    let id = g.next_id();
+                    if id >= cap || g.keys().contains(&id) || returned.contains(&id) {
+                        return Err(format!("after the script `{text}` (ids handed out so far {returned:?}) and the collection of what it built, next_id() returned {id}"));
+                    }
+                    returned.push(id);
+                }
+                Ok(())
+            });
+            match r {
+                Ok(Ok(())) => acc.bump("script_scenarios_ok", 1),
+                Ok(Err(e)) => acc.fail("C05", "script:id-repeated", e, replay),
+                Err(e) => acc.fail("C05", "script:scenario-panicked", format!("script scenario {si} panicked: {e}"), replay),
+            }
+        }
+    }
+}
+
